@@ -31,6 +31,9 @@ ENV = dict(os.environ, CARGO_NET_OFFLINE='true', RUSTFLAGS='--cfg bevy_cobweb_ve
 class Broken(Exception):
     """the machinery itself could not run (not a verdict about the property)"""
 
+class Unproved(Exception):
+    """a proof obligation of the property no longer checks: the property is no longer shown to hold"""
+
 def sh(cmd, cwd=None, timeout=3600, env=None):
     p = subprocess.run(cmd, cwd=cwd, shell=isinstance(cmd, str), stdout=subprocess.PIPE, stderr=subprocess.STDOUT,
                        timeout=timeout, env=env or ENV, text=True)
@@ -220,7 +223,7 @@ def main():
     # ---- 1. hygiene
     hyg = hygiene()
     if hyg:
-        raise Broken('forbidden vernacular in the Coq development: ' + '; '.join(hyg[:5]))
+        raise Unproved('forbidden vernacular in the Coq development: ' + '; '.join(hyg[:5]))
 
     # ---- 2. proofs
     rc, out = coq_build()
@@ -255,7 +258,7 @@ def main():
                 broken_theorems.append(f'expected {len(obligations)} assumption reports, got {len(blocks)}')
             if broken_theorems: proof_ok = False
     if not proof_ok:
-        raise Broken('the Coq development does not check (it does not depend on /repo): ' + ' | '.join(broken_theorems)[:1500])
+        raise Unproved('the Coq development does not check (the theorems do not mention /repo, so this comes from an edit under /verif/coq): ' + ' | '.join(broken_theorems)[:1500])
     coqchk_report = None
     if tier == 'thorough':
         # independent re-check of the property's compiled file and everything it depends on
@@ -268,7 +271,7 @@ def main():
         m = re.search(r'\* Axioms:\s*(.*?)\n\s*\n', cout + '\n\n', re.S)
         coqchk_report = m.group(1).strip() if m else 'unparsed'
         if rc != 0 or coqchk_report != '<none>':
-            raise Broken('coqchk does not accept the development or reports axioms: ' + cout[-800:])
+            raise Unproved('coqchk does not accept the development or reports axioms: ' + cout[-800:])
         assum_report['__coqchk__'] = ['coqchk -o: Axioms: ' + coqchk_report]
 
     # ---- 3. builds against /repo
@@ -390,6 +393,15 @@ def main():
 if __name__ == '__main__':
     try:
         main()
+    except Unproved as e:
+        # a proof obligation broke: no failing input can be exhibited for it; name what no longer checks in the replay file
+        cid = sys.argv[1]
+        os.makedirs(REPLAYS, exist_ok=True)
+        rp = os.path.join(REPLAYS, f'{cid}-proof.txt')
+        open(rp, 'w').write(f'property {cid}: a proof obligation no longer checks\n\n{e}\n')
+        print('# ' + str(e)[:300].replace('\n', ' '))
+        print(f'VIOLATION property={cid} replay={rp} no-failing-input-found')
+        sys.exit(1)
     except Broken as e:
         print('BROKEN-MACHINERY: ' + str(e))
         sys.exit(2)
